@@ -45,6 +45,17 @@ class Fiat(acting.Actor):
                                                  count=self._act.count)
         return parms
 
+    @staticmethod
+    def _send(tasker, control):
+        """Send control to tasker's runner and return resultant status.
+           If runner generator already exited (such as from an exception in an
+           action) then its finally clause left tasker aborted so return .status
+        """
+        try:
+            return tasker.runner.send(control)
+        except StopIteration:
+            return tasker.status
+
 class FiatReady(Fiat):
     """FiatReady Fiat
 
@@ -57,7 +68,7 @@ class FiatReady(Fiat):
         """ready control for explicit slave tasker"""
 
         console.profuse("Ready {0}\n".format(tasker.name))
-        status = tasker.runner.send(READY)
+        status = self._send(tasker, READY)
         return (status == READIED)
 
 class FiatStart(Fiat):
@@ -72,7 +83,7 @@ class FiatStart(Fiat):
         """start control for explicit slave tasker"""
 
         console.profuse("Start {0}\n".format(tasker.name))
-        status = tasker.runner.send(START)
+        status = self._send(tasker, START)
         return (status == STARTED)
 
 class FiatStop(Fiat):
@@ -87,7 +98,7 @@ class FiatStop(Fiat):
         """stop control for explicit slave framer"""
 
         console.profuse("Stope {0}\n".format(tasker.name))
-        status = tasker.runner.send(STOP)
+        status = self._send(tasker, STOP)
         return (status == STOPPED)
 
 class FiatRun(Fiat):
@@ -102,7 +113,7 @@ class FiatRun(Fiat):
         """run control for explicit slave tasker"""
 
         console.profuse("Run {0}\n".format(tasker.name))
-        status = tasker.runner.send(RUN)
+        status = self._send(tasker, RUN)
         return (status == RUNNING)
 
 class FiatAbort(Fiat):
@@ -117,5 +128,5 @@ class FiatAbort(Fiat):
         """abort control for explicit slave tasker"""
 
         console.profuse("Abort {0}\n".format(tasker.name))
-        status = tasker.runner.send(ABORT)
+        status = self._send(tasker, ABORT)
         return (status == ABORTED)
